@@ -33,7 +33,9 @@ LEVEL_NOTE = "Trusts the guarded step observer (live values at the 'recorded' ph
 
 CFG = gen.Cfg(onesided=4, servable=3, facilities=True, max_tasks=6, max_time=[5, 15, 40], abs_max=12, chain_components=True, due=True,
               work_pool=[0.0, 0.5, 1.0, 1.0, 2.0, 3.0])
-CFG_N = CFG.copy(nested="assembly")
+# nested products only without workplaces here: backward_simulate reverses the dependencies, which turns the
+# assembly form around (parent tasks first) and leads into the nested-placement findings D-PLC2..4 of C13
+CFG_N = CFG.copy(nested="free", max_wps=0)
 
 OPS = ["sim", "sim", "sim_keep_logs", "sim_keep_state", "resume", "pause", "backward", "backward", "initialize", "reverse"]
 
